@@ -60,11 +60,18 @@ if TYPE_CHECKING:
 class _SocketConnector:
     factory: Callable[[], Awaitable[tuple[AsyncStreamTransport, SocketProxy]]]
     scope: CancelScope
+    new_scope: Callable[[], CancelScope]
 
     async def get(self) -> tuple[AsyncStreamTransport, SocketProxy] | None:
         result: tuple[AsyncStreamTransport, SocketProxy] | None = None
-        with self.scope:
-            result = await self.factory()
+        try:
+            with self.scope:
+                result = await self.factory()
+        finally:
+            if result is None and not self.scope.cancel_called():
+                # The attempt failed or the caller has been cancelled (and aclose() was not called):
+                # the next caller will try again, but a cancel scope cannot be entered twice.
+                self.scope = self.new_scope()
         return result
 
 
@@ -257,6 +264,7 @@ class AsyncTCPNetworkClient(AbstractAsyncNetworkClient[_T_SentPacket, _T_Receive
         self.__socket_connector: _SocketConnector | None = _SocketConnector(
             factory=_utils.make_callback(self.__create_socket, socket_factory),
             scope=backend.open_cancel_scope(),
+            new_scope=backend.open_cancel_scope,
         )
         self.__socket_connector_lock: ILock = backend.create_lock()
 
